@@ -153,12 +153,14 @@ func (res *CheckResult) check() {
 			res.checkVarType(*varDecl.Type)
 		}
 
-		if varDecl.Name != nil {
-			res.checkDuplicateVars(*varDecl.Name, varDecl)
-		}
-
+		// the origin is evaluated before the variable is bound:
+		// it can only see the variables declared before this one
 		if varDecl.Origin != nil {
 			res.checkVarOrigin(*varDecl.Origin, varDecl)
+		}
+
+		if varDecl.Name != nil {
+			res.checkDuplicateVars(*varDecl.Name, varDecl)
 		}
 	}
 	for _, statement := range res.Program.Statements {
